@@ -479,23 +479,7 @@ def contract_call(ex, c, fi, recv, pos, kw, st, fr):
     tr_before = {k: v for k, v in post.heap.maps.items() if k.startswith('$tr')}
     ex.havoc_heap(post, c.modifies, cfr, hv_view)
     if any(m.strip() == '$trace' for m in c.modifies):
-        # the ghost trace only grows: what was recorded before the call is still there afterwards
-        n0 = tr_before.get('$trlen', z3.Int('h:$trlen'))
-        n1 = post.heap.maps['$trlen']
-        post.assume(n1 >= n0)
-        i = z3.Int('trf_i')
-        for key, newarr in post.heap.maps.items():
-            if not key.startswith('$tr.'):
-                continue
-            oldarr = tr_before.get(key)
-            if oldarr is None:
-                oldarr = z3.Const(f'h:{key}', newarr.sort())
-            if sym.BOUND is None:
-                post.assume(z3.ForAll([i], z3.Implies(z3.And(0 <= i, i < n0), newarr[i] == oldarr[i]), patterns=[newarr[i]]))
-            else:
-                # bounded mode: the trace of this activation starts at index 0 (no loss of generality)
-                sym.SIDE.append(z3.Int('h:$trlen') == 0)
-                post.assume(*[z3.Implies(n0 > c_, newarr[c_] == oldarr[c_]) for c_ in range(2 * sym.BOUND + 6)])
+        assume_trace_prefix(post, tr_before)
     # allocation only grows
     r = z3.Const('cc_r', Ref)
     if sym.BOUND is None:
@@ -545,6 +529,27 @@ def contract_call(ex, c, fi, recv, pos, kw, st, fr):
         # contract (or what is assumed with it) is contradictory -- never silently drop the path
         raise Unsupported(f'contract of {c.qual} admits no outcome at a call site in {fr.fi.qualname} (inconsistent contract?)')
     return outs
+
+
+def assume_trace_prefix(post, tr_before):
+    """After a havoc of the ghost trace (callee contract, loop cut): the trace only grows -- what was recorded
+    before is still there."""
+    n0 = tr_before.get('$trlen', z3.Int('h:$trlen'))
+    n1 = post.heap.maps['$trlen']
+    post.assume(n1 >= n0)
+    i = z3.Int('trf_i')
+    for key, newarr in list(post.heap.maps.items()):
+        if not key.startswith('$tr.'):
+            continue
+        oldarr = tr_before.get(key)
+        if oldarr is None:
+            oldarr = z3.Const(f'h:{key}', newarr.sort())
+        if sym.BOUND is None:
+            post.assume(z3.ForAll([i], z3.Implies(z3.And(0 <= i, i < n0), newarr[i] == oldarr[i]), patterns=[newarr[i]]))
+        else:
+            # bounded mode: the trace of this activation starts at index 0 (no loss of generality)
+            sym.SIDE.append(z3.Int('h:$trlen') == 0)
+            post.assume(*[z3.Implies(n0 > c_, newarr[c_] == oldarr[c_]) for c_ in range(2 * sym.BOUND + 6)])
 
 
 def _spec_state(cur, args, old):
@@ -744,6 +749,7 @@ def rely_havoc(ex, st, fr, what):
     old.pure = True
     ex.havoc_all(st, [])
     h = st.heap
+    h.maps['$world_havocked'] = z3.BoolVal(True)   # other objects may have changed: frames speak about self only
     for k in keep:
         if k[0] == 'field':
             h.store(k[1].t, k[2], k[3], k[4])
